@@ -144,9 +144,21 @@ def main(argv):
                      "suite": suite[0], "build_failed": res["build_failed"]})
     with open(os.path.join(vlib.ensure(vlib.WORK), "selftest.json"), "w") as f:
         json.dump(rows, f, indent=1)
-    if not only:
-        dest = os.path.join(vlib.VERIF, "seeded" if "--seeded" in argv else "mutants", "results.json")
-        with open(dest, "w") as f:
-            json.dump({"tier": "quick", "seed": 1, "rows": rows}, f, indent=1)
+    # results accumulate: rows of this run replace the rows of the same name
+    dest = os.path.join(vlib.VERIF, "seeded" if "--seeded" in argv else "mutants", "results.json")
+    old = []
+    try:
+        with open(dest) as f:
+            old = json.load(f).get("rows", [])
+    except (OSError, ValueError):
+        pass
+    names = {r["name"] for r in rows}
+    known = {m["name"] for m in muts}
+    head = subprocess.run(["git", "-C", vlib.VERIF, "rev-parse", "--short", "HEAD"], stdout=subprocess.PIPE, universal_newlines=True).stdout.strip()
+    for r in rows:
+        r["verif_commit"] = head
+    merged = sorted([r for r in old if r["name"] not in names and r["name"] in known] + rows, key=lambda r: r["name"])
+    with open(dest, "w") as f:
+        json.dump({"tier": "quick", "seed": 1, "rows": merged}, f, indent=1)
     print("selftest: %d mutants, %d missed" % (len(rows), bad))
     return 1 if bad else 0
